@@ -243,6 +243,7 @@ func drawC03(rt *rapid.T) C03Scenario {
 	head := sc.Init.clone()
 	origin := map[string]string{}
 	deleted := map[string]string{}
+	displaced := map[string]string{}
 	viaExcluded := map[string]bool{}
 	for p := range head {
 		origin[p] = p
@@ -413,7 +414,17 @@ func drawC03(rt *rapid.T) C03Scenario {
 				delete(head, p)
 				origin[np] = origin[p]
 				delete(origin, p)
+				// a path that a deletion had freed is taken over: what was deleted there is remembered and comes
+				// back into play when the newcomer moves on (in the comparison of the base and HEAD trees a file
+				// created at that path later continues the deleted one)
+				if o, ok := deleted[np]; ok {
+					displaced[np] = o
+				}
 				delete(deleted, np)
+				if o, ok := displaced[p]; ok {
+					deleted[p] = o
+					delete(displaced, p)
+				}
 				if viaExcluded[p] || excluded(p) || excluded(np) {
 					viaExcluded[np] = true
 				}
